@@ -42,6 +42,7 @@ def shards(tier, seed):
     out.append(("sets",))
     out.append(("attrnames",))
     out.append(("misc",))
+    out += [("renderpairs", i, j) for i in range(len(RENDER_SPECS)) for j in range(len(RENDER_SPECS))]
     out.append(("long",))
     out.append(("reuse",))
     out += [("expiry", z) for z in ZONES]
@@ -245,6 +246,41 @@ def file_response_cookies(r):
         shutil.rmtree(d, ignore_errors=True)
 
 
+def run_render_pair(prefix, specs):
+    """Two threads (two requests being answered) render one cookie each at the same time; a switch is possible on every line of
+    baize/datastructures.py."""
+    from ..core import vthreads as VT
+    from ..core.runner import REPO
+    from baize.datastructures import Cookie
+    jobs = [lambda i=i: (str(Cookie(*specs[i][0], **specs[i][1])), bytes(Cookie(*specs[i][0], **specs[i][1]))) for i in (0, 1)]
+    return VT.run_thread_pair(prefix, jobs, [os.path.join(REPO, "baize", "datastructures.py")])
+
+
+RENDER_SPECS = [(("sid", "abc"), {}), (("theme", "da;rk"), {"path": "/app", "secure": True, "httponly": True}), (("t", ""), {"max_age": 0, "samesite": "none", "domain": "example.org"})]
+
+
+def render_pairs(r, tier, only=None):
+    from ..core.explore import dfs
+    from baize.datastructures import Cookie
+    outs = set()
+    for i in range(len(RENDER_SPECS)):
+        for j in range(len(RENDER_SPECS)):
+            if only is not None and (i, j) != only:
+                continue
+            specs = [RENDER_SPECS[i], RENDER_SPECS[j]]
+            alone = [(str(Cookie(*a, **kw)), bytes(Cookie(*a, **kw))) for a, kw in specs]  # (also the warm-up)
+
+            def on_exec(x):
+                r.count("evaluations")
+                outs.add(repr(x.obs["results"]))
+                if x.obs["stuck"] or list(x.obs["results"]) != alone:
+                    r.violation("render-pair", {"kind": "renderpair", "specs": [[list(a), kw] for a, kw in specs], "schedule": list(x.choices)},
+                                f"two threads rendering cookies {[a for a, _ in specs]} at the same time, schedule {x.obs['trace'][-12:]}: {x.obs['results']!r:.200}; alone {alone!r:.200}")
+            dfs(lambda prefix: run_render_pair(prefix, specs), on_exec, bound=2 if tier == "quick" else 3)
+            r.count("distinct_nontrivial")
+    r.sample({"render_pair": [list(RENDER_SPECS[0][0]), list(RENDER_SPECS[1][0])], "preemption_bound": 2 if tier == "quick" else 3})
+
+
 def parse_attrs(line):
     parts = line.split("; ")
     attrs = {}
@@ -352,6 +388,8 @@ def run_shard(desc, tier):
                 roundtrip(r, name, value, "attr-name", full=False)
                 roundtrip(r, name, value, "attr-name", full=True)
         r.sample({"name": "path", "value": "x", "attributes": "default and all"})
+    elif desc[0] == "renderpairs":
+        render_pairs(r, tier, (desc[1], desc[2]))
     elif desc[0] == "misc":
         # percent signs and strftime-like text, with and without an Expires attribute (whose date is made with strftime)
         for value in ["%", "%%", "100%", "%2Fhome%3Fx%3D1", "%d-%m-%Y", "%s", "%Y", "%a, %d %b", "a%3Db", "%0", "%z%Z", "50%-off", "%E4%B8%AD"]:
@@ -384,6 +422,13 @@ def replay(w):
     r = R()
     if w["kind"] == "roundtrip":
         roundtrip(r, w["name"], w["value"], "replay", full=w.get("full", False))
+    elif w["kind"] == "renderpair":
+        from baize.datastructures import Cookie
+        specs = [(tuple(a), kw) for a, kw in w["specs"]]
+        alone = [(str(Cookie(*a, **kw)), bytes(Cookie(*a, **kw))) for a, kw in specs]
+        x = run_render_pair(list(w["schedule"]), specs)
+        bad = bool(x.obs["stuck"]) or list(x.obs["results"]) != alone
+        return bad, {"results": repr(x.obs["results"]), "alone": repr(alone)}
     elif w["kind"] == "mutated":
         mutated_request_cookies(r)
     elif w["kind"] == "filecookies":
